@@ -497,7 +497,7 @@ Definition pfacts_ok (f : pfacts) : bool :=
 Record pargs := mkA {
   a_name : N;                (* name                              *)
   a_add : bool;              (* addIfNotExist                     *)
-  a_tag : N;                 (* the template argument T           *)
+  a_tag : N;                 (* the template argument T (getParam) / the form of the argument (setParam) *)
   a_val : N;                 (* t / valIfNotFound / v             *)
   a_this : option nat        (* the Param a Param:: member runs on *)
 }.
@@ -654,7 +654,8 @@ Definition psimple_exec (cal : pcallee) (c : pctx) (s : psimple) : option pctx :
       end
   | PAssignData =>
       match a_this (pc_a c) with
-      | Some i => Some (p_upd c (upd_nth i (set_data (Some (a_tag (pc_a c), a_val (pc_a c)))) (pc_s c)))
+      (* what the Any holds after `data = v` depends on the form of v: Model.store_of (decay, Any payload) *)
+      | Some i => Some (p_upd c (upd_nth i (set_data (store_of (a_tag (pc_a c)) (a_val (pc_a c)))) (pc_s c)))
       | None => None
       end
   | PSUnknown => None
